@@ -73,8 +73,9 @@ pub fn to_spherical(cart: Cartesian) -> Spherical {
     let z = cart.z();
 
     let theta = Radians::new_unchecked(y.atan2(x));
-    let r = (x * x + y * y + z * z).sqrt();
-    let phi = Radians::new_unchecked((z / r).acos());
+    // atan2 instead of acos(z / r): acos loses half of the significant digits when |z / r|
+    // approaches 1, i.e. near the poles
+    let phi = Radians::new_unchecked((x * x + y * y).sqrt().atan2(z));
 
     Spherical::new(theta, phi)
 }
